@@ -6,6 +6,8 @@ import (
 	"context"
 	"fmt"
 	"io"
+	"reflect"
+	"unsafe"
 
 	"github.com/go-kit/log"
 	"github.com/prometheus/client_golang/prometheus"
@@ -40,9 +42,38 @@ var variantsOf = map[string][]string{
 	"memberlist/consul": {"multi/memberlist+consul"},
 }
 
-// fixedLimit: variants whose retry limit cannot be configured from outside the package (10).
+// fixedLimit: variants whose retry limit cannot be set by the harness (10): their CAS loop runs in
+// the process-wide in-memory Consul client that package kv creates and keeps to itself.
 func fixedLimit(variant string) bool {
-	return variant != "consul/bare" && variant != "consul/prefix"
+	return variant == "consul/metrics" || variant == "multi/consul+memberlist"
+}
+
+// setUnexportedInt writes an unexported int field of the struct ptr points to (path of field
+// names). The retry limits of the etcd client (Client.cfg.MaxRetries; NewInMemoryClient hard-codes
+// the default) and of the memberlist KV (KV.maxCasRetries; the repository's own tests set it the
+// same way from inside the package) have no exported setter; small limits are what makes
+// "retries exhausted by conflicts alone" reachable in small state graphs. A missing field is an
+// error (inconclusive run), never a silent default.
+func setUnexportedInt(ptr interface{}, v int, path ...string) error {
+	f := reflect.ValueOf(ptr)
+	if f.Kind() != reflect.Ptr || f.IsNil() {
+		return fmt.Errorf("setUnexportedInt: need a non-nil pointer, got %T", ptr)
+	}
+	f = f.Elem()
+	for _, name := range path {
+		if f.Kind() != reflect.Struct {
+			return fmt.Errorf("setUnexportedInt(%T): %q is not in a struct", ptr, name)
+		}
+		f = f.FieldByName(name)
+		if !f.IsValid() {
+			return fmt.Errorf("setUnexportedInt(%T): no field %q", ptr, name)
+		}
+	}
+	if f.Kind() != reflect.Int || !f.CanAddr() {
+		return fmt.Errorf("setUnexportedInt(%T): field %v is not an addressable int", ptr, path)
+	}
+	reflect.NewAt(f.Type(), unsafe.Pointer(f.UnsafeAddr())).Elem().SetInt(int64(v))
+	return nil
 }
 
 type store struct {
@@ -63,12 +94,15 @@ func initInMemory() (kv.Client, error) {
 	return kv.NewClient(kv.Config{Store: "inmemory"}, Codec{}, nil, nop)
 }
 
-func newMemberlistKV(ctx context.Context) (*memberlist.KV, func(), error) {
+func newMemberlistKV(ctx context.Context, limit int) (*memberlist.KV, func(), error) {
 	var cfg memberlist.KVConfig
 	cfg.Codecs = append(cfg.Codecs, Codec{})
 	cfg.RetransmitMult = 1
 	cfg.WatchPrefixBufferSize = 128 // the flag default; 0 would make prefix notifications rendezvous-only
 	mkv := memberlist.NewDetachedKVForVerif(cfg, nop, func() int { return 1 })
+	if err := setUnexportedInt(mkv, limit, "maxCasRetries"); err != nil {
+		return nil, nil, err
+	}
 	if err := services.StartAndAwaitRunning(ctx, mkv); err != nil {
 		return nil, nil, err
 	}
@@ -102,13 +136,17 @@ func openStore(ctx context.Context, variant string, limit int) (*store, error) {
 	case "etcd/bare", "etcd/prefix":
 		c, cl := etcd.NewInMemoryClient(Codec{}, nop)
 		closer(cl)
+		if err := setUnexportedInt(c, limit, "cfg", "MaxRetries"); err != nil {
+			s.close()
+			return nil, err
+		}
 		s.client = c
 		if variant == "etcd/prefix" {
 			s.client = kv.PrefixClient(c, pfx)
 			s.inner = getter(c, pfx)
 		}
 	case "memberlist/bare", "memberlist/prefix":
-		mkv, stop, err := newMemberlistKV(ctx)
+		mkv, stop, err := newMemberlistKV(ctx, limit)
 		if err != nil {
 			return nil, err
 		}
@@ -135,7 +173,7 @@ func openStore(ctx context.Context, variant string, limit int) (*store, error) {
 		s.client = c
 		s.inner = getter(raw, pfx)
 	case "memberlist/metrics":
-		mkv, stop, err := newMemberlistKV(ctx)
+		mkv, stop, err := newMemberlistKV(ctx, limit)
 		if err != nil {
 			return nil, err
 		}
@@ -155,7 +193,7 @@ func openStore(ctx context.Context, variant string, limit int) (*store, error) {
 		if err != nil {
 			return nil, err
 		}
-		mkv, stop, err := newMemberlistKV(ctx)
+		mkv, stop, err := newMemberlistKV(ctx, limit)
 		if err != nil {
 			return nil, err
 		}
